@@ -63,6 +63,8 @@ class Probe:
         self.returned = set()    # (cid, eid, oid, fac, renv) of completed requests
         self.errors = []         # (tid, cid, eid, oid, exception) for requests that raised
         self.known_fns = set()
+        self.live_codes = set()  # code ids that were defined in the log and not yet collected in it
+        self.addr_reuses = 0     # new code objects seen at the address of a dead one
         self.idents = {}         # threading.get_ident() -> tid
         self.transpiler = None
         self.resolve_nested = None   # replay: (code, env, opt) -> (fn, options)
@@ -141,12 +143,57 @@ class Probe:
         self.frames().append(fr)
         t = self.tid()
         with self.evlock:
-            if (fr.cid, fr.eid) not in self.known_fns:
-                self.known_fns.add((fr.cid, fr.eid))
-                self.events.append(dict(th=0, ev='def', key=fr.cid, sub=0, env=fr.eid, fac=list(NOFAC), res=0))
+            self._define(fn, fr.cid, fr.eid)
             self.events.append(dict(th=t, ev='req', key=fr.cid, sub=fr.oid, env=fr.eid, fac=list(NOFAC), res=0))
         self.park()
         return fr
+
+    def _define(self, fn, cid, eid):
+        """(log mutex held) The heap as the specification sees it: a function object [code, env] that is new to the
+        log is defined - with the address of its code object and the current contents of its cells.  A code object
+        whose address has been taken over is dead: if the log still has it alive, it is collected first."""
+        with self.reg._lock:
+            dead, self.reg.superseded[:] = list(self.reg.superseded), []
+        for old in dead:
+            self._collected(old, reuse=True)
+        if (cid, eid) not in self.known_fns:
+            self.known_fns.add((cid, eid))
+            self.live_codes.add(cid)
+            self.events.append(dict(th=0, ev='def', key=cid, sub=0, env=eid,
+                                    fac=[self.reg.addr_id(fn.__code__), self.reg.val_id(fn), 0], res=0))
+
+    def _collected(self, cid, reuse=False):
+        if reuse:
+            self.addr_reuses += 1
+        if cid in self.live_codes:
+            self.live_codes.discard(cid)
+            self.events.append(dict(th=0, ev='collect', key=cid, sub=0, env=0, fac=list(NOFAC), res=0))
+            return True
+        return False
+
+    def collected(self, cid):
+        """The code object `cid` is dead (its weak reference says so)."""
+        with self.evlock:
+            return self._collected(cid)
+
+    def rebind(self, fn, name, value):
+        """Rebinds the captured variable `name` of fn (the cell stays, its contents change); write and log entry are
+        atomic with respect to the log."""
+        cell = dict(zip(fn.__code__.co_freevars, fn.__closure__))[name]
+        eid = self.reg.env_id(fn)
+        with self.evlock:
+            if cell.cell_contents == value:
+                return False
+            cell.cell_contents = value
+            self.events.append(dict(th=0, ev='rebind', key=0, sub=0, env=eid, fac=list(NOFAC), res=self.reg.val_id(fn)))
+        return True
+
+    def look(self, fn, oid, contents):
+        """A result handed out for a request of fn was called and read `contents` through its closure."""
+        cid = self.reg.code_id(fn.__code__, create=False)
+        eid = self.reg.env_id(fn, create=False)
+        if cid and eid:
+            self.ev('look', key=cid, sub=oid, env=eid, res=self.reg.val_name(contents), th=0)
 
     def finish(self, fr, res):
         try:
